@@ -675,6 +675,12 @@ def remove_tensor(expr: e.Expr, t_name: str) -> dict:
         # - reduce the number of terms as much as possible
         return simplify(symmetrized_term)
 
+    def tensor_block(tensor: e.Obj) -> str:
+        spin = tensor.spin
+        if all(c == "n" for c in spin):
+            return tensor.space
+        return f"{tensor.space}_{spin}"
+
     def process_term(term: e.Term, t_name):
         # print(f"\nProcessing term {term}")
         # collect all occurences of the desired tensor
@@ -687,6 +693,10 @@ def remove_tensor(expr: e.Expr, t_name: str) -> dict:
                 remaining_term *= obj
         if not tensors:  # could not find the tensor
             return {("none",): term}
+        # remove the occurences in the order of their blocks: the n'th entry
+        # of the (sorted) key then always belongs to the n'th set of
+        # (minimized) tensor indices
+        tensors.sort(key=tensor_block)
         # extract all the target indices and split according to their space
         target_indices = {}
         for s in term.target:
@@ -712,11 +722,7 @@ def remove_tensor(expr: e.Expr, t_name: str) -> dict:
                                 target_indices)
         # determine the space/block of the removed tensor
         # used as key in the returned dict
-        spin = tensor.spin
-        if all(c == "n" for c in spin):
-            t_block = [tensor.space]
-        else:
-            t_block = [f"{tensor.space}_{spin}"]
+        t_block = [tensor_block(tensor)]
         # print(t_block, remaining_term)
         if len(tensors) == 1:  # only a single occurence no need to recurse
             return {tuple(t_block): remaining_term}
